@@ -40,7 +40,8 @@ def run(exe, script, timeout=60):
 
 
 def extract(exe):
-    evs = run(exe, "init\nX log\nY log\nB 0 0 0\nB 0 0 0\nY exit\nB 0 0 0\nX flushcall\nB 0 0 0\nB 0 0 0\nX flushret\nX stop\nB 0 0 0\nend\n")
+    evs = run(exe, "init\nX log\nY log\nB 0 0 0\nB 0 0 0\nY exit\nB 0 0 0\nX flushcall\nB 0 0 0\nB 0 0 0\nX flushret\n"
+                   "X removecall\nB 0 0 0\nB 0 0 0\nB 0 0 0\nX removeret\nX stop\nB 0 0 0\nend\n")
     k = {}
     for e in evs:
         if e["e"] != "acc":
@@ -51,6 +52,14 @@ def extract(exe):
             k.setdefault("MoStop", e["mo"])
         elif e["obj"] == "R" and e["op"] == "load" and e["t"] == 1:
             k.setdefault("MoLoop", e["mo"])
+        elif e["obj"] == "RB" and e["op"] in ("store", "rmw") and e["t"] == 1:
+            k.setdefault("MoRemStore", e["mo"])
+        elif e["obj"] == "RB" and e["op"] == "load" and e["t"] == 0:
+            k.setdefault("MoRemLoad", e["mo"])
+        elif e["obj"] == "H" and e["op"] in ("store", "rmw") and e["t"] == 0:
+            k.setdefault("MoHStore", e["mo"])
+        elif e["obj"] == "H" and e["op"] == "load" and e["t"] == 1:
+            k.setdefault("MoHLoad", e["mo"])
         elif e["obj"] == "FL" and e["op"] in ("store", "rmw") and e["t"] == 1:
             k.setdefault("MoFlushStore", e["mo"])
         elif e["obj"] == "FL" and e["op"] == "load" and e["t"] == 0:
@@ -62,18 +71,21 @@ def extract(exe):
         elif e["obj"] in ("W", "WY") and e["op"] == "load" and e["t"] == 1:
             # the weakest order among the backend's loads of the writer position (prepare_read, empty)
             k["MoRead"] = "rlx" if (e["mo"] == "rlx" or k.get("MoRead") == "rlx") else e["mo"]
-    if len(k) != 8 or not any(e["e"] == "stopped" for e in evs):
+    if len(k) != 12 or not any(e["e"] == "stopped" for e in evs):
         raise vlib.Infra(f"could not observe the atomic accesses of the stop protocol: {k}")
     return k
 
 
 def mine(prop, why):
-    """which property a contract rejection belongs to: the flush clauses are C06's, everything else C07's"""
-    return (prop == "C06") == why.startswith("flush_log()")
+    """which property a contract rejection belongs to: the flush clauses are C06's, the removal clauses C17's, everything else C07's"""
+    owner = "C06" if why.startswith("flush_log()") else "C17" if why.startswith("remove_logger_blocking()") else "C07"
+    return prop == owner
 
 
-def cfg_text(k, recs, export, maxy=0, maxf=0, inv="NoLoss FlushOK"):
-    return ("SPECIFICATION Spec\nCONSTANTS MaxRecs = %d\n MaxY = %d\n MaxFlush = %d\n MoFlushStore = \"%s\"\n MoFlushLoad = \"%s\"\n MoInv = \"%s\"\n MoIsValid = \"%s\"\n MoCommit = \"%s\"\n MoStop = \"%s\"\n MoLoop = \"%s\"\n MoRead = \"%s\"\n"
+def cfg_text(k, recs, export, maxy=0, maxf=0, inv="NoLoss FlushOK", maxr=0):
+    return ("SPECIFICATION Spec\nCONSTANTS MaxRemove = %d\n MoHStore = \"%s\"\n MoHLoad = \"%s\"\n MoRemStore = \"%s\"\n MoRemLoad = \"%s\"\n"
+            % (maxr, k["MoHStore"], k["MoHLoad"], k["MoRemStore"], k["MoRemLoad"])) + (
+            " MaxRecs = %d\n MaxY = %d\n MaxFlush = %d\n MoFlushStore = \"%s\"\n MoFlushLoad = \"%s\"\n MoInv = \"%s\"\n MoIsValid = \"%s\"\n MoCommit = \"%s\"\n MoStop = \"%s\"\n MoLoop = \"%s\"\n MoRead = \"%s\"\n"
             " Export = %s\nINVARIANTS %s TypeOK\nVIEW StateView\n%sCHECK_DEADLOCK FALSE\n"
             % (recs, maxy, maxf, k["MoFlushStore"], k["MoFlushLoad"], k["MoInv"], k["MoIsValid"], k["MoCommit"], k["MoStop"], k["MoLoop"], k["MoRead"], "TRUE" if export else "FALSE", inv,
                "ACTION_CONSTRAINT ExportA\n" if export else ""))
@@ -88,7 +100,7 @@ def script_of(beh):
             L.append("X stop")
         elif h["a"] == "iter":
             L.append(f"B {h['arg'][0]} {h['arg'][1]} {h['arg'][2]}")
-        elif h["a"] in ("flushcall", "flushret"):
+        elif h["a"] in ("flushcall", "flushret", "removecall", "removeret"):
             L.append("X " + h["a"])
         elif h["a"] == "exit":
             L.append("Y exit")
@@ -103,7 +115,7 @@ def compare(beh, evs):
         return "harness crashed or hung"
     if evs and evs[-1].get("badchoice"):
         return "a load value chosen by the model is not allowed by the harness' memory model"
-    steps = [e for e in evs if e["e"] in ("committed", "ycommitted", "yexited", "joined", "stopreq", "bstep", "flushcall", "flushed")]
+    steps = [e for e in evs if e["e"] in ("committed", "ycommitted", "yexited", "joined", "stopreq", "bstep", "flushcall", "flushed", "removecall", "removed")]
     if len(steps) != len(beh):
         return f"harness ran {len(steps)} of {len(beh)} steps"
     # the loads of each B iteration
@@ -121,7 +133,7 @@ def compare(beh, evs):
             continue
         acc, st = segs[bi]
         bi += 1
-        ir, iw, iy, iy2, gone = h["arg"]
+        ir, iw, iy, iy2, gone, iw2 = h["arg"]
         rl = [a for a in acc if a["obj"] == "R"]
         wl = [a for a in acc if a["obj"] == "W"]
         yl = [a["idx"] for a in acc if a["obj"] == "WY"]
@@ -132,8 +144,10 @@ def compare(beh, evs):
             return f"iteration {bi}: Y's writer position loads read {yl}, model {iy} (then {iy2} in the clean-up)"
         if len(rl) != 1 or rl[0]["idx"] != ir:
             return f"iteration {bi}: the loop head read message {[a['idx'] for a in rl]} of the running flag, model {ir}"
-        if not wl or any(a["idx"] != iw for a in wl):
-            return f"iteration {bi}: writer position loads read {[a['idx'] for a in wl]}, model {iw} (at least one load)"
+        wi = [a["idx"] for a in wl]
+        nold = len([x for x in wi if x == iw]) if (iw2 and iw2 != iw) else len(wi)
+        if not wi or wi != [iw] * nold + [iw2] * (len(wi) - nold) or (iw2 and iw2 != iw and nold == len(wi)):
+            return f"iteration {bi}: writer position loads read {wi}, model {iw} (then {iw2} in the logger clean-up; at least one load)"
         fin_model = rl[0]["val"] == 0
         if bool(st.get("finished")) != fin_model:
             return f"iteration {bi}: backend terminated = {st.get('finished')}, model {fin_model}"
@@ -176,14 +190,18 @@ def run_for(ck):
         ck.drifted(f"stop protocol: constant extraction failed: {ex}")
         return
     ck.extra["stop_protocol_memory_orders_from_code"] = k
-    configs = ([(2, 0, 0), (1, 1, 0), (2, 0, 1)] if quick else
-               [(2, 0, 0), (4, 0, 0), (1, 1, 0), (2, 1, 0), (1, 2, 0), (2, 2, 0), (2, 0, 1), (2, 0, 2), (3, 0, 1), (1, 1, 1)])
+    configs = ([(2, 0, 0, 0), (1, 1, 0, 0), (2, 0, 1, 0)] if quick else
+               [(2, 0, 0, 0), (4, 0, 0, 0), (1, 1, 0, 0), (2, 1, 0, 0), (1, 2, 0, 0), (2, 2, 0, 0), (2, 0, 1, 0), (2, 0, 2, 0), (3, 0, 1, 0),
+                (1, 1, 1, 0)])
     if ck.prop == "C06":
         configs = [c for c in configs if c[2] > 0]
-    for recs, maxy, maxf in configs:
-        label = f"stop-{recs}-{maxy}-{maxf}"
+    if ck.prop == "C17":
+        # remove_logger_blocking(): statements, optionally a flush, then the removal, then (maybe) the stop
+        configs = [(1, 0, 0, 1), (2, 0, 0, 1)] if quick else [(1, 0, 0, 1), (2, 0, 0, 1), (3, 0, 0, 1), (2, 0, 1, 1)]
+    for recs, maxy, maxf, maxr in configs:
+        label = f"stop-{recs}-{maxy}-{maxf}" + (f"-r{maxr}" if maxr else "")
         cfg = vlib.write_cfg(vlib.BUILD / "cfg" / f"StopRA_{ck.prop}_{label}.cfg",
-                             cfg_text(k, recs, True, maxy, maxf, "FlushOK" if ck.prop == "C06" else "NoLoss"))
+                             cfg_text(k, recs, True, maxy, maxf, {"C06": "FlushOK", "C17": "RemoveOK"}.get(ck.prop, "NoLoss"), maxr))
         r = vlib.tlc("StopRA", cfg, timeout=900, coverage=quick)
         if r.error:
             raise vlib.Infra(r.error)
@@ -206,7 +224,7 @@ def run_for(ck):
             ck.drifted(f"StopRA violates {r.violated} with the code's memory orders {k} but the real code passes on that schedule")
             continue
         if quick:
-            for a in ("XLog", "XStop") + (("XFlushCall",) if maxf else ()):
+            for a in ("XLog", "XStop") + (("XFlushCall",) if maxf else ()) + (("XRemoveCall",) if maxr else ()):
                 if not vlib.enabled(r, a):
                     raise vlib.Infra(f"vacuity: {a} never enabled in StopRA {label}")
         behs = vlib.behaviours(r)
@@ -215,7 +233,7 @@ def run_for(ck):
         if len(behs) > (150 if quick else 1500):
             import random
             rnd = random.Random(ck.seed)
-            fin = [b for b in behs if any(h["a"] in ("stop", "flushret") for h in b)]
+            fin = [b for b in behs if any(h["a"] in ("stop", "flushret", "removeret") for h in b)]
             behs = rnd.sample(fin, min(len(fin), 150 if quick else 1500))
         with ThreadPoolExecutor(max_workers=max(2, vlib.NCPU // 2)) as ex:
             res = list(ex.map(lambda b: run(exe, script_of(b)), behs))
@@ -227,7 +245,7 @@ def run_for(ck):
                 if ndrift <= 3:
                     ck.drifted(f"StopRA {label}: {d}")
             execs.append((f"{label}-{i}", script_of(b), evs))
-            ck.case(("stopra", label, i), nontrivial=any(e["e"] in ("stopped", "flushed") for e in evs))
+            ck.case(("stopra", label, i), nontrivial=any(e["e"] in ("stopped", "flushed", "removed") for e in evs))
         rej = validate(ck, execs, label)
         ck.traces_validated += len(execs) - len(rej)
         for key, sc, why, ev in [x for x in rej if mine(ck.prop, x[2])][:3]:
